@@ -248,8 +248,12 @@ def via_connection_case(ctx, case):
     srv = servers.Server({'version': rel, 'login': [('success',)],
                           'play': {'bursts': [], 'end': 'silent'}})
     world = vnet.World(servers=[srv])
+    host = case.get('host', 'localhost')
+    if case.get('dns_records'):
+        world.dns_records = case['dns_records']
     with vnet.installed(world):
-        conn, o = servers.make_connection(world, allowed_versions={rel})
+        conn, o = servers.make_connection(world, allowed_versions={rel},
+                                          address=host)
         try:
             conn.connect()
             import time as _t
@@ -277,6 +281,14 @@ def via_connection_case(ctx, case):
                 raise
             ctx.fail('via_connection', 'G2-write-raises', case, exc=e)
             return
+    # the handshake that opened this connection: published layout, the
+    # host name the user gave (however many addresses it resolves to)
+    want_hs = {'protocol_version': rel, 'server_address': host,
+               'server_port': 25565, 'next_state': 2}
+    if srv.handshake != want_hs:
+        ctx.fail('via_connection', 'G2-handshake-fields', case,
+                 srv.handshake, want_hs)
+        return
     got = [(pid, bytes(pl)) for st_, pid, pl, comp in srv.frames
            if st_ == 'play'][nplay:]
     want = [(p['id'], refproto.encode_fields(p['layout'], vals))]
@@ -404,7 +416,10 @@ def t_via_connection(ctx, releases):
                     'release': rel, 'other': other, 'packet': name,
                     'values': boundary_values(p, rel, specs_of(p), k % 5),
                     'how': ['kw', 'attr', 'none'][k % 3],
-                    'queued': bool(k % 2)})
+                    'queued': bool(k % 2),
+                    'host': ['localhost', 'play.example.org',
+                             '192.0.2.7'][k % 3],
+                    'dns_records': [None, 2, 3, None][k % 4]})
     ctx.sample({'release': releases[0], 'other': 757, 'packet': 'sb chat'},
                'via_connection')
 
